@@ -1,9 +1,11 @@
 //! wfh: runs correspondence cases against the real wirefilter implementation.
 //! One s-expression case per input line, one canonical result per output line.
+mod c06;
 mod c08;
 mod c09;
 mod c10;
 mod c11;
+mod c14;
 mod c15;
 mod c16;
 mod c19;
@@ -25,6 +27,8 @@ fn dispatch(case: &Sexp) -> Option<Sexp> {
         "registry-history" => c16::run(head, args),
         "contains" | "simd-active" => c10::run(head, args),
         "wildcard" | "regex" => c11::run(head, args),
+        "lit" | "lit-span" => c06::run(head, args),
+        "ctx-roundtrip" | "ctx-roundtrip-exec" | "ctx-json" | "value-roundtrip" | "value-json" => c14::run(head, args),
         "type-codec" | "type-json" | "scheme-json" | "scheme-roundtrip" | "ctype-build" | "ctype-decode" => {
             c15::run(head, args)
         }
